@@ -611,6 +611,7 @@ def _dohist(data, dmin, s, binsize, hist, revind=None):
     offset = nbin + 1
     i = 0
     binnum_old = -1
+    rev_end = nbin + 1
 
     while i < s.size:
         data_index = s[i]
@@ -630,15 +631,18 @@ def _dohist(data, dmin, s, binsize, hist, revind=None):
 
             hist[binnum] += 1
             binnum_old = binnum
+            # one past the last datum that was counted
+            rev_end = offset + 1
 
         i += 1
         offset += 1
 
     if dorev:
-        # Fill in the last ones
+        # Fill in the last ones, closing after the last counted datum: data
+        # beyond the last bin are not part of any bin's slice
         tbin = binnum_old + 1
         while tbin <= nbin:
-            revind[tbin] = revind.size
+            revind[tbin] = rev_end
             tbin += 1
 
 
